@@ -10,9 +10,9 @@
 (***************************************************************************)
 EXTENDS TraceLib
 
-VARIABLES l, run, ih, chain, top, phase, got, lastH, nextExec, fresh, maxExec, viol
+VARIABLES l, run, ih, chain, top, phase, got, lastH, nextExec, fresh, maxExec, onDA, finals, cur, chunks, viol
 
-vars == <<l, run, ih, chain, top, phase, got, lastH, nextExec, fresh, maxExec, viol>>
+vars == <<l, run, ih, chain, top, phase, got, lastH, nextExec, fresh, maxExec, onDA, finals, cur, chunks, viol>>
 
 NoB == [h |-> 0, hh |-> 0, hash |-> "?", prev |-> "?", t |-> 0, txs |-> <<>>, app |-> <<>>, appok |-> FALSE,
         dh |-> FALSE, sig |-> "none", ssig |-> "none", meta |-> "none", cid |-> FALSE, idx |-> FALSE, dc |-> "?"]
@@ -28,17 +28,37 @@ Complete(g, h) == \A x \in ih .. h : <<"hdr", x>> \in g /\ (IsEmptyBlk(x) \/ <<"
 \* "seen" by data commitment, so the second one is dropped).
 AliasStall(hgt) == LET s == hgt + 1 IN s <= top /\ ~IsEmptyBlk(s) /\ \E x \in ih .. top : x # s /\ C(x).txs = C(s).txs
 
+\* data of a block whose tx list equals another block's may be dropped as seen (known finding C02-alias)
+AliasSeen(d) == d.kind = "data" /\ \E x \in ih .. top : x # d.h /\ C(x).txs = C(d.h).txs
+
 Same(b, c) == b.hash = c.hash /\ b.txs = c.txs /\ b.app = c.app /\ b.appok /\ b.t = c.t /\ b.hh = c.hh
 
+\* what the node has received at an observation: what was pushed to it directly, plus every genuine
+\* blob at a DA height its scan has moved past
+Rcvd(o) == got \cup {<<d.kind, d.h>> : d \in {x \in onDA : x.dah < o.daCur}}
+
 ObsChecks(o) == <<
+    <<"C09.CursorMatches", o.up => o.daCur = cur, "the DA scan cursor is not where the fetch history puts it (moved past a height that was not fetched successfully, or failed to move)">>,
+    <<"C09.HandedToSync", o.up => \A d \in onDA : (d.dah < o.daCur /\ d.h > o.height /\ d.h <= o.height + 12 /\ ~AliasSeen(d)) =>
+          IF d.kind = "hdr" THEN \E i \in 1 .. Len(o.cH) : o.cH[i] = d.h ELSE \E i \in 1 .. Len(o.cD) : o.cD[i] = d.h,
+        "a genuine blob at a DA height the scan has moved past was not handed to sync">>,
     <<"C02.Prefix", \A h \in ih .. o.height : HasBlock(o.blocks, h) /\ Same(BlockAt(o.blocks, h), C(h)), "a height up to the node's chain height does not hold the proposer's block">>,
     <<"C05.BlocksPresent", \A h \in ih .. o.height : HasBlock(o.blocks, h) /\ Same(BlockAt(o.blocks, h), C(h)) /\ BlockAt(o.blocks, h).idx, "a height up to the recorded chain height has no retrievable block identical to the proposer's">>,
     <<"C03.OnlyGenuine", \A h \in ih .. o.height : BlockAt(o.blocks, h).sig = "P" /\ BlockAt(o.blocks, h).ssig = "P", "a block in the node's chain is not signed by the genesis proposer's key">>,
+    <<"C03.InclSound", \A h \in ih .. MaxOf(o.incl, o.durIncl) : h <= top =>
+          /\ (\E d \in onDA : d.kind = "hdr" /\ d.h = h)
+          /\ (IsEmptyBlk(h) \/ (\E d \in onDA : d.kind = "data" /\ d.h = h) \/ (\E d \in onDA : d.kind = "data" /\ C(d.h).txs = C(h).txs)),
+        "a block was reported DA-included although the proposer's header / data for it is not on the DA layer">>,
+    <<"C03.MarkSound", /\ \A i \in 1 .. Len(o.mH) : \E d \in onDA : d.kind = "hdr" /\ d.h = o.mH[i].h /\ d.dah = o.mH[i].dah
+                      /\ \A i \in 1 .. Len(o.mD) : \E d \in onDA : d.kind = "data" /\ d.dah = o.mD[i].dah /\ C(d.h).txs = C(o.mD[i].h).txs,
+        "an item was marked as seen on the DA layer at a DA height where no blob signed by the proposer is">>,
+    <<"C03.FinalizedGenuine", \A h \in finals : h <= top /\ \E d \in onDA : d.kind = "hdr" /\ d.h = h,
+        "the execution layer was asked to finalize a block whose genuine header is not on the DA layer">>,
     <<"C02.HeightMonotone", o.height >= lastH, "chain height decreased">>,
     <<"C02.NoOvershoot", o.height <= top, "chain height beyond the proposer's chain">>,
-    <<"C02.AppliedWhatArrived", (o.up /\ o.tag \in {"deliver", "settled"}) => (AliasStall(o.height) \/ \A h \in ih .. top : Complete(got, h) => o.height >= h),
+    <<"C02.AppliedWhatArrived", (o.up /\ o.tag \in {"deliver", "settled"}) => (AliasStall(o.height) \/ \A h \in ih .. top : Complete(Rcvd(o), h) => o.height >= h),
         "both parts of all blocks up to h were received but the node has not applied h">>,
-    <<"C02.AppliedWhatArrived.alias", (o.up /\ o.tag \in {"deliver", "settled"}) => (~AliasStall(o.height) \/ \A h \in ih .. top : Complete(got, h) => o.height >= h),
+    <<"C02.AppliedWhatArrived.alias", (o.up /\ o.tag \in {"deliver", "settled"}) => (~AliasStall(o.height) \/ \A h \in ih .. top : Complete(Rcvd(o), h) => o.height >= h),
         "stuck below a block whose tx list equals another block's (data de-duplicated by commitment)">>,
     <<"C05.StateMatches", (o.up /\ o.tag \in {"deliver", "settled", "restart"}) =>
           /\ (o.stOk => o.stH = o.height /\ o.stRootOk /\ o.stRoot = ChainRootBefore(o.height + 1))
@@ -47,7 +67,7 @@ ObsChecks(o) == <<
 
 Init ==
     /\ l = 1 /\ run = "" /\ ih = 1 /\ chain = <<>> /\ top = 0 /\ phase = "" /\ got = {} /\ lastH = 0
-    /\ nextExec = 1 /\ fresh = FALSE /\ maxExec = 0 /\ viol = <<>>
+    /\ nextExec = 1 /\ fresh = FALSE /\ maxExec = 0 /\ onDA = {} /\ finals = {} /\ cur = 1 /\ chunks = 0 /\ viol = <<>>
 
 e == Trace[l]
 Is(name) == l <= N /\ e.ev = name
@@ -57,28 +77,31 @@ Full == "node" \in DOMAIN e /\ e.node = "full"
 TReset ==
     /\ Is("Reset") /\ Adv
     /\ run' = e.run /\ ih' = e.ih /\ chain' = <<>> /\ top' = 0 /\ phase' = "" /\ got' = {} /\ lastH' = 0
-    /\ nextExec' = e.ih /\ fresh' = FALSE /\ maxExec' = e.ih - 1
+    /\ nextExec' = e.ih /\ fresh' = FALSE /\ maxExec' = e.ih - 1 /\ onDA' = {} /\ finals' = {} /\ cur' = (IF "dastart" \in DOMAIN e THEN e.dastart ELSE 1) /\ chunks' = 0
     /\ UNCHANGED viol
 
 TChain ==
     /\ Is("Chain") /\ Adv
     /\ chain' = e.blocks /\ top' = e.top
-    /\ UNCHANGED <<run, ih, phase, got, lastH, nextExec, fresh, maxExec, viol>>
+    /\ UNCHANGED <<run, ih, phase, got, lastH, nextExec, fresh, maxExec, onDA, finals, cur, chunks, viol>>
 
 TPhase ==
     /\ Is("Phase") /\ Adv /\ phase' = e.name
-    /\ UNCHANGED <<run, ih, chain, top, got, lastH, nextExec, fresh, maxExec, viol>>
+    /\ UNCHANGED <<run, ih, chain, top, got, lastH, nextExec, fresh, maxExec, onDA, finals, cur, chunks, viol>>
 
 TDeliver ==
     /\ Is("Deliver") /\ Adv
-    /\ got' = got \cup {<<e.kind, e.h>>}
-    /\ UNCHANGED <<run, ih, chain, top, phase, lastH, nextExec, fresh, maxExec, viol>>
+    /\ got' = IF e.via \in {"chan", "p2p", "queued", "persistent-p2p"} THEN got \cup {<<e.kind, e.h>>} ELSE got
+    /\ onDA' = IF e.via \in {"da", "queued"} THEN onDA \cup {[kind |-> e.kind, h |-> e.h, dah |-> e.dah]} ELSE onDA
+    /\ UNCHANGED <<run, ih, chain, top, phase, lastH, nextExec, fresh, maxExec, finals, cur, chunks, viol>>
 
 TObs ==
     /\ Is("Obs") /\ Full /\ Adv
     /\ viol' = viol \o Failed(ObsChecks(e), l, run)
     /\ lastH' = MaxOf(lastH, e.height)
-    /\ UNCHANGED <<run, ih, chain, top, phase, got, nextExec, fresh, maxExec>>
+    /\ cur' = IF e.tag = "restart" THEN e.daCur ELSE cur
+    /\ chunks' = IF e.tag = "restart" THEN 0 ELSE chunks
+    /\ UNCHANGED <<run, ih, chain, top, phase, got, nextExec, fresh, maxExec, onDA, finals>>
 
 TExec ==
     /\ Is("ExecTxs") /\ Full /\ Adv
@@ -91,31 +114,60 @@ TExec ==
     /\ nextExec' = IF e.ok THEN e.h + 1 ELSE nextExec
     /\ maxExec' = IF e.ok THEN MaxOf(maxExec, e.h) ELSE maxExec
     /\ fresh' = IF e.ok THEN FALSE ELSE fresh
-    /\ UNCHANGED <<run, ih, chain, top, phase, got, lastH>>
+    /\ UNCHANGED <<run, ih, chain, top, phase, got, lastH, onDA, finals, cur, chunks>>
+
+TFinal ==
+    /\ Is("ExecFinal") /\ Full /\ Adv
+    /\ finals' = IF e.ok THEN finals \cup {e.h} ELSE finals
+    /\ UNCHANGED <<run, ih, chain, top, phase, got, lastH, nextExec, fresh, maxExec, onDA, cur, chunks, viol>>
+
+\* header-only node: what go-header admitted to the store it serves to light clients
+TLight ==
+    /\ Is("LightOffer") /\ Adv
+    /\ viol' = viol \o Failed(<<
+          <<"C03.LightOnlyGenuine", e.res = "admitted" => e.sig = "P" /\ e.hash = C(e.h).hash, "a header not signed by the proposer's key was admitted to the header store of a header-only node">>,
+          <<"C03.LightFollows", e.class = "genuine" => e.res = "admitted", "third-party material prevented the header-only node from admitting the proposer's header">>
+          >>, l, run)
+    /\ UNCHANGED <<run, ih, chain, top, phase, got, lastH, nextExec, fresh, maxExec, onDA, finals, cur, chunks>>
+
+\* fetch history of the scan: the node must ask for exactly the cursor height; the cursor moves on after
+\* "nothing here" or after the listing and every id chunk were fetched
+TGetIDs ==
+    /\ Is("DAGetIDs") /\ phase = "sync" /\ Adv
+    /\ viol' = viol \o Failed(<< <<"C09.ScansInOrder", e.dah = cur, "the scan examined a DA height other than the next unexamined one">> >>, l, run)
+    /\ cur' = IF e.dah = cur /\ e.res = "notfound" THEN cur + 1 ELSE cur
+    /\ chunks' = IF e.res \in {"ok", "okchunkerr"} THEN (e.nids + 99) \div 100 ELSE 0
+    /\ UNCHANGED <<run, ih, chain, top, phase, got, lastH, nextExec, fresh, maxExec, onDA, finals>>
+
+TGet ==
+    /\ Is("DAGet") /\ phase = "sync" /\ Adv
+    /\ chunks' = IF e.res = "ok" /\ chunks > 0 THEN chunks - 1 ELSE 0
+    /\ cur' = IF e.res = "ok" /\ chunks = 1 /\ e.dah = cur THEN cur + 1 ELSE cur
+    /\ UNCHANGED <<run, ih, chain, top, phase, got, lastH, nextExec, fresh, maxExec, onDA, finals, viol>>
 
 TCrash ==
     /\ Is("Crash") /\ Full /\ Adv
     /\ got' = {} /\ fresh' = TRUE
-    /\ UNCHANGED <<run, ih, chain, top, phase, lastH, nextExec, maxExec, viol>>
+    /\ UNCHANGED <<run, ih, chain, top, phase, lastH, nextExec, maxExec, onDA, finals, cur, chunks, viol>>
 
 \* the process was stopped without an orderly shutdown: volatile caches are gone
 TStop ==
     /\ Is("Stop") /\ Full /\ Adv
     /\ got' = IF e.clean THEN got ELSE {}
     /\ fresh' = IF e.clean THEN fresh ELSE TRUE
-    /\ UNCHANGED <<run, ih, chain, top, phase, lastH, nextExec, maxExec, viol>>
+    /\ UNCHANGED <<run, ih, chain, top, phase, lastH, nextExec, maxExec, onDA, finals, cur, chunks, viol>>
 
 TRestart ==
     /\ Is("Restart") /\ Full /\ Adv
     /\ viol' = viol \o Failed(<< <<"C05.RestartFailed", e.ok, "node cannot start on an image it wrote itself">> >>, l, run)
-    /\ UNCHANGED <<run, ih, chain, top, phase, got, lastH, nextExec, fresh, maxExec>>
+    /\ UNCHANGED <<run, ih, chain, top, phase, got, lastH, nextExec, fresh, maxExec, onDA, finals, cur, chunks>>
 
 TNodeErr ==
     /\ (Is("NodeErr") \/ Is("Panic")) /\ Full /\ Adv
     /\ viol' = viol \o Failed(<< <<"C02.Halted", FALSE, "the node halted (sync error or panic) on genuine / third-party traffic">>,
                                  <<"C03.Halted", FALSE, "the node halted (sync error or panic) on genuine / third-party traffic">> >>, l, run)
     /\ got' = {} /\ fresh' = TRUE
-    /\ UNCHANGED <<run, ih, chain, top, phase, lastH, nextExec, maxExec>>
+    /\ UNCHANGED <<run, ih, chain, top, phase, lastH, nextExec, maxExec, onDA, finals, cur, chunks>>
 
 TQuiesce ==
     /\ Is("Quiesce") /\ Adv
@@ -125,15 +177,16 @@ TQuiesce ==
           <<"C03.Converged", (e.up /\ e.height = e.top) \/ (e.up /\ AliasStall(e.height)), "third-party material prevented the node from following the proposer's chain">>,
           <<"C02.Converged.alias", ~(e.up /\ e.height < e.top /\ AliasStall(e.height)), "stuck below a block whose tx list equals another block's (data de-duplicated by commitment)">>
           >>, l, run)
-    /\ UNCHANGED <<run, ih, chain, top, phase, got, lastH, nextExec, fresh, maxExec>>
+    /\ UNCHANGED <<run, ih, chain, top, phase, got, lastH, nextExec, fresh, maxExec, onDA, finals, cur, chunks>>
 
 TOther ==
     /\ l <= N /\ Adv
-    /\ ~(e.ev \in {"Reset", "Chain", "Phase", "Deliver", "Quiesce"})
-    /\ ~(Full /\ e.ev \in {"Obs", "ExecTxs", "Crash", "Restart", "NodeErr", "Panic", "Stop"})
-    /\ UNCHANGED <<run, ih, chain, top, phase, got, lastH, nextExec, fresh, maxExec, viol>>
+    /\ ~(e.ev \in {"Reset", "Chain", "Phase", "Deliver", "Quiesce", "LightOffer"})
+    /\ ~(e.ev \in {"DAGetIDs", "DAGet"} /\ phase = "sync")
+    /\ ~(Full /\ e.ev \in {"Obs", "ExecTxs", "Crash", "Restart", "NodeErr", "Panic", "Stop", "ExecFinal"})
+    /\ UNCHANGED <<run, ih, chain, top, phase, got, lastH, nextExec, fresh, maxExec, onDA, finals, cur, chunks, viol>>
 
-Next == TStop \/ TReset \/ TChain \/ TPhase \/ TDeliver \/ TObs \/ TExec \/ TCrash \/ TRestart \/ TNodeErr \/ TQuiesce \/ TOther
+Next == TGetIDs \/ TGet \/ TLight \/ TFinal \/ TStop \/ TReset \/ TChain \/ TPhase \/ TDeliver \/ TObs \/ TExec \/ TCrash \/ TRestart \/ TNodeErr \/ TQuiesce \/ TOther
 Spec == Init /\ [][Next]_vars
 Finish == (l = N + 1) => ndJsonSerialize("viol.ndjson", viol)
 Consumed == TLCGet("stats").diameter = N + 1
